@@ -164,8 +164,8 @@ static void build_ops()
    add("iterate_forward", "", F_ITER_FWD, SK_NONE, 0, {}, 0);
    add("iterate_reverse", "", F_ITER_REV, SK_NONE, 0, {}, 0);
    add("iterator_arithmetic", "", F_ITER_ARITH, SK_NONE, 0, { R_ANY, R_ANY }, 0);
-   static const int FWD_EDGES[] = { 0, 1, 5, 6, 8, 9, 12, 14, 16, 18, 19, 20 };
-   static const int REV_EDGES[] = { 2, 3, 4, 7, 10, 11, 13, 15, 17, 21, 22 };
+   static const int FWD_EDGES[] = { 0, 1, 5, 6, 8, 9, 12, 14, 16, 18, 19, 20, 24, 25, 28, 30, 32 };
+   static const int REV_EDGES[] = { 2, 3, 4, 7, 10, 11, 13, 15, 17, 21, 22, 23, 26, 27, 29, 31 };
    for (int e : FWD_EDGES) add("iterator_edge_forward", std::to_string(e), F_ITER_EDGE, SK_NONE, e, { R_POS }, OF_C10ONLY);
    for (int e : REV_EDGES) add("iterator_edge_reverse", std::to_string(e), F_ITER_EDGE, SK_NONE, e, { R_POS }, OF_C10ONLY);
 }
